@@ -9,6 +9,7 @@ import (
 	"encoding/hex"
 	"errors"
 	"fmt"
+	"io/fs"
 	"log/slog"
 	"os"
 	"path/filepath"
@@ -277,7 +278,7 @@ func (b *instBackend) Fetch(ctx context.Context, key string) ([]byte, error) {
 	}
 	if !ok {
 		w.ev("%d fetch %s nf", b.inst, key)
-		return nil, fmt.Errorf("key %q not found", key)
+		return nil, fmt.Errorf("key %q not found: %w", key, fs.ErrNotExist) // as LocalBackend reports a missing file
 	}
 	w.ev("%d fetch %s ok %s", b.inst, key, b.payloadToken(key, o.data, &o.opts))
 	return bytes.Clone(o.data), nil
